@@ -205,3 +205,22 @@ pub fn flip_nth_digest(v: &mut Value, n: usize, seen: &mut usize) -> bool {
         _ => false,
     }
 }
+
+/// Non-ASCII / control characters for single-character insertions and substitutions: a parser
+/// that strips or normalises "invisible" code points would let these through.
+pub const ODD_CHARS: [char; 16] = [
+    '\u{feff}', '\u{200b}', '\u{200c}', '\u{200d}', '\u{2060}', '\u{a0}', '\u{85}', 'é', '\u{ff0e}', '\u{ff5e}', '\u{0}', '\n', '\t', '\r', '\u{ad}', '\u{2028}',
+];
+
+/// Insert (replace = false) or substitute (replace = true) one arbitrary character at byte
+/// position `pos` of an ASCII string.
+pub fn apply_char(s: &str, pos: usize, c: char, replace: bool) -> Option<String> {
+    if pos > s.len() || (replace && pos >= s.len()) {
+        return None;
+    }
+    let mut out = String::with_capacity(s.len() + 4);
+    out.push_str(&s[..pos]);
+    out.push(c);
+    out.push_str(&s[if replace { pos + 1 } else { pos }..]);
+    Some(out)
+}
